@@ -45,6 +45,12 @@ Ltac text_auto := repeat text1.
 Lemma text_all : forall fuel,
   (forall o, text (run_op fixed fuel o)) /\ (forall l, text (run_ops fixed fuel l)) /\
   (forall w hs, text (run_key_handlers fixed fuel w hs)) /\ (forall w hs t u, text (run_mouse_handlers fixed fuel w hs t u)) /\
+  (forall w hs k, text (run_ev_handlers fixed fuel w hs k)) /\
+  (forall w, text (set_geometry fixed fuel w)) /\ text (on_term_resize fixed fuel) /\
+  (forall w, text (do_expose fixed fuel w)) /\ (forall w k, text (expose_kids fixed fuel w k)) /\
+  (forall w c, text (expose_kids_asis fixed fuel w c)) /\
+  (forall w, text (focus_lost fixed fuel w)) /\ (forall w c, text (focus_gained fixed fuel w c)) /\
+  (forall w, text (window_flush fixed fuel w)) /\
   (forall w, text (handle_key fixed fuel w)) /\ (forall w s k, text (key_kids fixed fuel w s k)) /\
   (forall w c, text (key_kids_asis fixed fuel w c)) /\
   (forall w t i u, text (handle_mouse fixed fuel w t i u)) /\ (forall w k t i u, text (mouse_kids fixed fuel w k t i u)) /\
@@ -52,13 +58,22 @@ Lemma text_all : forall fuel,
   (forall w, text (ref_up fixed fuel w)) /\ (forall l, text (unref_list fixed fuel l)) /\
   (forall t, text (on_term_mouse fixed fuel t)).
 Proof.
-  induction fuel as [|f (I1 & I2 & I3 & I4 & I5 & I6 & I7 & I8 & I9 & I10 & I11 & I12 & I13)].
+  induction fuel as [|f (I1 & I2 & I3 & I4 & I5 & I6 & I7 & I8 & I9 & I10 & I11 & I12 & I13 & I14 & I15 & I16 & I17 & I18 & I19 & I20 & I21 & I22)].
   - repeat split; intros; intro h; exact I.
   - repeat split; intros.
-    + rewrite run_op_F. text_auto.
+    + rewrite run_op_F. cbn [v_events_asis fixed]. text_auto.
     + rewrite run_ops_F. text_auto.
     + rewrite run_key_handlers_F. text_auto.
     + rewrite run_mouse_handlers_F. text_auto.
+    + rewrite run_ev_handlers_F. text_auto.
+    + rewrite set_geometry_F. cbn [v_events_asis fixed]. text_auto.
+    + rewrite on_term_resize_F. cbn [v_events_asis fixed]. text_auto.
+    + rewrite do_expose_F. cbn [v_events_asis fixed]. text_auto.
+    + rewrite expose_kids_F. text_auto.
+    + rewrite expose_kids_asis_F. text_auto.
+    + rewrite focus_lost_F. cbn [v_events_asis fixed]. text_auto.
+    + rewrite focus_gained_F. cbn [v_events_asis fixed]. text_auto.
+    + rewrite window_flush_F. cbn [v_events_asis fixed]. text_auto.
     + rewrite handle_key_F. cbn [v_events_asis fixed]. text_auto.
     + rewrite key_kids_F. text_auto.
     + rewrite key_kids_asis_F. text_auto.
@@ -246,6 +261,10 @@ Proof.
   - destruct (eusable g (idx w)); [|discriminate]. inversion Hs; subst g'. exact Hsame.
   - destruct (eusable g (idx w)); [|discriminate]. inversion Hs; subst g'. exact Hsame.
   - destruct (eusable g (idx w)); [|discriminate]. inversion Hs; subst g'. exact Hsame.
+  - destruct (eusable g (idx w) && _); [|discriminate]. inversion Hs; subst g'. exact Hsame.
+  - destruct (eusable g (idx w)); [|discriminate]. inversion Hs; subst g'. exact Hsame.
+  - destruct (eusable g (idx w)); [|discriminate]. inversion Hs; subst g'. exact Hsame.
+  - inversion Hs; subst g'. exact Hsame.
   - inversion Hs; subst g'. exact Hsame.
 Qed.
 
@@ -581,7 +600,17 @@ Definition S_all (f : nat) : Prop :=
   (forall w st kids F h, good F h -> In (idx w) F -> dok F (key_kids fixed f w st kids h)) /\
   (forall w t i u F h, good F h -> parent_framed F h w -> dok F (handle_mouse fixed f w t i u h)) /\
   (forall w kids t i u F h, good F h -> In (idx w) F -> dok F (mouse_kids fixed f w kids t i u h)) /\
-  (forall t F h, good F h -> findw h root <> None -> dok F (on_term_mouse fixed f t h)).
+  (forall t F h, good F h -> findw h root <> None -> dok F (on_term_mouse fixed f t h)) /\
+  (* the other event kinds *)
+  (forall w hs k F h, good F h -> In (idx w) F -> dok F (run_ev_handlers fixed f w hs k h)) /\
+  (forall w F h, good F h -> findw h w <> None -> dok F (set_geometry fixed f w h)) /\
+  (forall F h, good F h -> findw h root <> None -> dok F (on_term_resize fixed f h)) /\
+  (forall w F h, good F h -> parent_framed F h w -> dok F (do_expose fixed f w h)) /\
+  (forall w kids F h, good F h -> In (idx w) F -> dok F (expose_kids fixed f w kids h)) /\
+  (forall w F h, good F h -> parent_framed F h w -> dok F (focus_lost fixed f w h)) /\
+  (forall w child F h, good F h -> parent_framed F h w -> (forall ch, child = Some ch -> In (idx ch) F) ->
+     dok F (focus_gained fixed f w child h)) /\
+  (forall F h, good F h -> findw h root <> None -> dok F (window_flush fixed f root h)).
 
 Lemma text_run_op : forall f o, text (run_op fixed f o).
 Proof. intros. apply (text_all f). Qed.
@@ -601,7 +630,24 @@ Lemma text_mkids : forall f w k t i u, text (mouse_kids fixed f w k t i u).
 Proof. intros. apply (text_all f). Qed.
 Lemma text_otm : forall f t, text (on_term_mouse fixed f t).
 Proof. intros. apply (text_all f). Qed.
-#[local] Hint Resolve text_run_op text_run_ops text_keyh text_mouseh text_hkey text_kkids text_hmouse text_mkids text_otm : core.
+Lemma text_evh : forall f w hs k, text (run_ev_handlers fixed f w hs k).
+Proof. intros. apply (text_all f). Qed.
+Lemma text_setgeom : forall f w, text (set_geometry fixed f w).
+Proof. intros. apply (text_all f). Qed.
+Lemma text_resize : forall f, text (on_term_resize fixed f).
+Proof. intros. apply (text_all f). Qed.
+Lemma text_doexpose : forall f w, text (do_expose fixed f w).
+Proof. intros. apply (text_all f). Qed.
+Lemma text_exkids : forall f w k, text (expose_kids fixed f w k).
+Proof. intros. apply (text_all f). Qed.
+Lemma text_flost : forall f w, text (focus_lost fixed f w).
+Proof. intros. apply (text_all f). Qed.
+Lemma text_fgained : forall f w c, text (focus_gained fixed f w c).
+Proof. intros. apply (text_all f). Qed.
+Lemma text_flush : forall f w, text (window_flush fixed f w).
+Proof. intros. apply (text_all f). Qed.
+#[local] Hint Resolve text_run_op text_run_ops text_keyh text_mouseh text_hkey text_kkids text_hmouse text_mkids text_otm
+  text_evh text_setgeom text_resize text_doexpose text_exkids text_flost text_fgained text_flush : core.
 
 Lemma mtype_eq_drag : forall t : mtype, t = MDrag \/ t <> MDrag.
 Proof. intro t. destruct t; (left; reflexivity) || (right; discriminate). Qed.
@@ -628,34 +674,6 @@ Proof.
   eapply dok_bind; [apply S1; exact G|auto|]. intros _ h1 _ G1. apply S2. exact G1.
 Qed.
 
-Lemma step_run_op : forall f, S_all f -> forall o F h, good F h -> dok F (run_op fixed (S f) o h).
-Proof.
-  intros f SA o F h G.
-  destruct (event_free_op o) eqn:Hef.
-  { pose proof (good_client (S f) o F h G Hef) as H. unfold dok. destruct (run_op fixed (S f) o h); auto. }
-  destruct SA as (_ & _ & _ & _ & S5 & _ & _ & _ & S9).
-  rewrite run_op_F. destruct o; cbn in Hef; try discriminate.
-  - (* OKey *)
-    unfold bind at 1. cbn [log_op].
-    set (h1 := mkHeap (wins h) (reqs h) (rx h) (nextw h) (nextq h) (dlog h) (uninit_seen h) (OKey :: tr h)).
-    assert (G1 : good F h1) by (apply good_logged; [exact G|reflexivity]).
-    unfold bind at 1. unfold root_bound at 1. destruct (PM.mem 1%positive (wins h1)) eqn:Em; [|apply dok_ret; exact G1].
-    assert (Hl : findw h1 root <> None).
-    { unfold findw. apply PM.mem_2 in Em. destruct Em as [c Hc]. apply PM.find_1 in Hc. unfold root. congruence. }
-    eapply dok_bind; [apply S5; [exact G1|apply good_root_framed; assumption]|intro; apply text_ret|].
-    intros _ h2 _ G2. apply dok_ret. exact G2.
-  - (* OMouse *)
-    unfold bind at 1. cbn [log_op].
-    set (h1 := mkHeap (wins h) (reqs h) (rx h) (nextw h) (nextq h) (dlog h) (uninit_seen h) (OMouse t :: tr h)).
-    assert (G1 : good F h1) by (apply good_logged; [exact G|intro g; reflexivity]).
-    unfold bind at 1. unfold root_bound at 1. destruct (PM.mem 1%positive (wins h1)) eqn:Em; [|apply dok_ret; exact G1].
-    assert (Hl : findw h1 root <> None).
-    { unfold findw. apply PM.mem_2 in Em. destruct Em as [c Hc]. apply PM.find_1 in Hc. unfold root. congruence. }
-    apply S9; assumption.
-  - cbn. right. exact G.
-  - cbn. right. exact G.
-Qed.
-
 Lemma framed_cell : forall F h w, good F h -> In (idx w) F -> exists c, findw h w = Some c.
 Proof.
   intros F h w G Hin. pose proof (good_framed_live F h (idx w) G Hin) as Hl. rewrite addr_idx in Hl. apply live_some. exact Hl.
@@ -666,7 +684,7 @@ Lemma step_keyh : forall f, S_all f -> forall w hs F h, good F h -> In (idx w) F
 Proof.
   intros f (_ & S2 & S3 & _) w hs F h G Hin. rewrite run_key_handlers_F. destruct hs as [|hd hs']; [apply dok_ret; exact G|].
   destruct (framed_cell F h w G Hin) as [cw Hw]. unfold bind at 1. rewrite (getw_run h w cw Hw).
-  destruct (h_key hd && existsb (fun x => h_id x =? h_id hd) (w_hs cw)); [|apply S3; assumption].
+  destruct (h_is HKey hd && existsb (fun x => h_id x =? h_id hd) (w_hs cw)); [|apply S3; assumption].
   eapply dok_bind; [apply S2; exact G| |].
   - intros _. destruct (h_ret hd); [apply text_ret|auto].
   - intros _ h1 _ G1. destruct (h_ret hd); [apply dok_ret; exact G1|apply S3; assumption].
@@ -677,7 +695,7 @@ Lemma step_mouseh : forall f, S_all f -> forall w hs t u F h, good F h -> In (id
 Proof.
   intros f (_ & S2 & _ & S4 & _) w hs t u F h G Hin. rewrite run_mouse_handlers_F. destruct hs as [|hd hs']; [apply dok_ret; exact G|].
   destruct (framed_cell F h w G Hin) as [cw Hw]. unfold bind at 1. rewrite (getw_run h w cw Hw).
-  destruct (h_key hd || negb (existsb (fun x => h_id x =? h_id hd) (w_hs cw))); [apply S4; assumption|].
+  destruct (negb (h_is HMouse hd) || negb (existsb (fun x => h_id x =? h_id hd) (w_hs cw))); [apply S4; assumption|].
   assert (Hrest : forall h0, good F h0 ->
             dok F ((if handler_fires_mouse hd t
                     then run_ops fixed f (h_actions hd) ;;; (if h_ret hd then ret true else run_mouse_handlers fixed f w hs' t u)
@@ -1186,6 +1204,462 @@ Proof.
   - apply Hmid; [apply text_ret|]. apply dok_ret. exact Hpush.
 Qed.
 
+(* ---- the other dispatching calls: EXPOSE (flush), FOCUS (take_focus), GEOMCHANGE (set_geometry, reposition, resize) ---- *)
+Lemma good_stable : forall F h h', good F h -> hinv [] h' -> stable h h' -> tr h' = tr h -> good F h'.
+Proof.
+  intros F h h' (g & Hg & HI & AG & Hfr & HF) HI' S Ht. exists g. split; [rewrite Ht; exact Hg|]. split; [exact HI'|].
+  split; [eapply agreeE_stable; eauto|split; assumption].
+Qed.
+Lemma good_rx_only : forall F h h', good F h -> rx_only h h' -> tr h' = tr h -> good F h'.
+Proof.
+  intros F h h' G R Ht. assert (HI : hinv [] h) by (destruct G as (g & _ & HI & _); exact HI).
+  apply (good_stable F h h' G); [eapply hinv_rx_only; eauto|apply rx_only_stable; exact R|exact Ht].
+Qed.
+Lemma good_hinv : forall F h, good F h -> hinv [] h.
+Proof. intros F h (g & _ & HI & _). exact HI. Qed.
+
+(* a command that leaves parents, reference counts and the trace alone *)
+Lemma run_stable : forall F A (m : M A) h, good F h -> ktr m ->
+  match m h with Ok _ h' => hinv [] h' /\ stable h h' | Fault _ _ => False | NoFuel => True end ->
+  match m h with Ok _ h' => good F h' | Fault _ _ => False | NoFuel => True end.
+Proof.
+  intros F A m h G K H. specialize (K h). destruct (m h) as [a h'| |]; auto. destruct H. eapply good_stable; eauto.
+Qed.
+Lemma run_rx_only : forall F A (m : M A) h, good F h -> ktr m ->
+  match m h with Ok _ h' => rx_only h h' | Fault _ _ => False | NoFuel => True end ->
+  match m h with Ok _ h' => good F h' | Fault _ _ => False | NoFuel => True end.
+Proof.
+  intros F A m h G K H. specialize (K h). destruct (m h) as [a h'| |]; auto. eapply good_rx_only; eauto.
+Qed.
+
+(* a frame around a command *)
+Lemma dok_framed : forall f w (m : M unit) F h, good F h -> parent_framed F h w -> text m ->
+  (forall h1, good (idx w :: F) h1 -> dok (idx w :: F) (m h1)) ->
+  dok F ((frame_run f (OFrameRef w) ;;; (m ;;; frame_run f (OFrameUnref w))) h).
+Proof.
+  intros f w m F h G (c & Hc & Hpar) Tm Hm.
+  unfold bind at 1. pose proof (good_push f F h w c G Hc Hpar) as Hpush.
+  destruct (frame_run f (OFrameRef w) h) as [u h1| |]; [|contradiction|exact I].
+  eapply (dok_bind (idx w :: F) F); [apply Hm; exact Hpush|intros _; apply text_frame_run|].
+  intros _ h2 _ G2. pose proof (good_pop f F h2 w G2) as H. unfold dok. destruct (frame_run f (OFrameUnref w) h2); auto; contradiction.
+Qed.
+
+(* the ancestors of a window held around a command *)
+Lemma dok_held : forall f A (m : M A) d F h, good F h -> findw h d <> None -> text m ->
+  (forall F' h1, good F' h1 -> parent_framed F' h1 d -> dok F' (m h1)) ->
+  dok F ((cd <- getw d ;; count_up f (w_parent cd) ;;; cd' <- getw d ;; held <- ref_up fixed f (w_parent cd') ;;
+          m ;;; unref_list fixed f held) h).
+Proof.
+  intros f A m d F h G Hl Tm Hm. destruct (live_some h d Hl) as [cd Hd].
+  assert (HI : hinv [] h) by (destruct G as (g & _ & HI & _); exact HI).
+  assert (Hlp : forall p, w_parent cd = Some p -> findw h p <> None).
+  { intros p Hp. destruct (hinv_parent_live [] h d cd p HI Hd Hp) as [cp Hcp]. congruence. }
+  unfold bind at 1. rewrite (getw_run h d cd Hd). unfold bind at 1.
+  pose proof (count_up_spec f h (w_parent cd) HI Hlp) as Hcu.
+  destruct (count_up f (w_parent cd) h) as [u h0| |]; [|contradiction|exact I]. subst h0.
+  unfold bind at 1. rewrite (getw_run h d cd Hd). unfold bind at 1.
+  pose proof (ref_up_spec f h (w_parent cd) [] F (good_good0 F h G) Hlp) as Hru.
+  destruct (ref_up fixed f (w_parent cd) h) as [held h1| |]; [|contradiction|exact I].
+  destruct Hru as (G0 & S1 & U). cbn [app] in G0.
+  assert (G1 : good (map idx held ++ F) h1).
+  { apply good_of_good0; [exact G0|]. apply (FSh_same_par h h1 _ S1). eapply FSh_held; [apply good_FSh; exact G|exact U]. }
+  assert (Hpf : parent_framed (map idx held ++ F) h1 d).
+  { pose proof (S1 d) as Sd. rewrite Hd in Sd. destruct (findw h1 d) as [cd1|] eqn:Hd1; [|contradiction].
+    exists cd1. split; [exact Hd1|]. intros p Hp. rewrite Sd in Hp. rewrite Hp in U.
+    inversion U as [|a' c' l' Hf' U']; subst. cbn. left. reflexivity. }
+  eapply (dok_bind (map idx held ++ F) F); [apply Hm; assumption| |].
+  - intros _. apply (text_all f).
+  - intros r h2 _ G2. pose proof (unref_list_spec f held F h2 G2) as H. unfold dok.
+    destruct (unref_list fixed f held h2); auto; contradiction.
+Qed.
+
+(* a framed window's parent is framed too, and so its parent ... *)
+Lemma framed_parent_framed : forall F h w c p, good F h -> In (idx w) F -> findw h w = Some c -> w_parent c = Some p ->
+  parent_framed F h p.
+Proof.
+  intros F h w c p G Hin Hc Hp. pose proof (good_FSh F h G) as HF.
+  apply in_split in Hin. destruct Hin as (F1 & F2 & E).
+  assert (Hc' : findw h (addr_of (idx w)) = Some c) by (rewrite addr_idx; exact Hc).
+  pose proof (HF F1 (idx w) F2 c p E Hc' Hp) as Hp2.
+  assert (HpF : In (idx p) F) by (rewrite E; apply in_or_app; right; right; exact Hp2).
+  destruct (framed_cell F h p G HpF) as [cp Hcp]. exists cp. split; [exact Hcp|].
+  intros pp Hpp. apply in_split in Hp2. destruct Hp2 as (G1 & G2 & E2).
+  assert (E3 : F = (F1 ++ idx w :: G1) ++ idx p :: G2) by (rewrite E, E2, <- app_assoc; reflexivity).
+  assert (Hcp' : findw h (addr_of (idx p)) = Some cp) by (rewrite addr_idx; exact Hcp).
+  pose proof (HF _ (idx p) G2 cp pp E3 Hcp' Hpp) as H. rewrite E3. apply in_or_app. right. right. exact H.
+Qed.
+
+(* run_events over the handlers of one of the other kinds *)
+Lemma step_evh : forall f, S_all f -> forall w hs k F h, good F h -> In (idx w) F ->
+  dok F (run_ev_handlers fixed (S f) w hs k h).
+Proof.
+  intros f SA w hs k F h G Hin. pose proof SA as (_ & S2 & _ & _ & _ & _ & _ & _ & _ & S10 & _).
+  rewrite run_ev_handlers_F. destruct hs as [|hd hs']; [apply dok_ret; exact G|].
+  destruct (framed_cell F h w G Hin) as [cw Hw]. unfold bind at 1. rewrite (getw_run h w cw Hw).
+  destruct (h_is k hd && existsb (fun x => h_id x =? h_id hd) (w_hs cw)); [|apply S10; assumption].
+  eapply dok_bind; [apply S2; exact G|intros _; auto|]. intros _ h1 _ G1. apply S10; assumption.
+Qed.
+
+(* the handlers of a framed window, after its cell has been read *)
+Lemma dok_own_handlers : forall f, S_all f -> forall w k F h, good F h -> In (idx w) F ->
+  dok F ((c <- getw w ;; run_ev_handlers fixed f w (w_hs c) k) h).
+Proof.
+  intros f SA w k F h G Hin. pose proof SA as (_ & _ & _ & _ & _ & _ & _ & _ & _ & S10 & _).
+  destruct (framed_cell F h w G Hin) as [cw Hw]. unfold bind at 1. rewrite (getw_run h w cw Hw). apply S10; assumption.
+Qed.
+Lemma text_own_handlers : forall f w k, text (c <- getw w ;; run_ev_handlers fixed f w (w_hs c) k).
+Proof. intros. text_auto. Qed.
+Lemma dok_fcn_handlers : forall f, S_all f -> forall w k F h, good F h -> In (idx w) F ->
+  dok F ((c <- getw w ;; if w_fcn c then run_ev_handlers fixed f w (w_hs c) k else ret tt) h).
+Proof.
+  intros f SA w k F h G Hin. pose proof SA as (_ & _ & _ & _ & _ & _ & _ & _ & _ & S10 & _).
+  destruct (framed_cell F h w G Hin) as [cw Hw]. unfold bind at 1. rewrite (getw_run h w cw Hw).
+  destruct (w_fcn cw); [apply S10; assumption|apply dok_ret; exact G].
+Qed.
+Lemma text_fcn_handlers : forall f w k, text (c <- getw w ;; if w_fcn c then run_ev_handlers fixed f w (w_hs c) k else ret tt).
+Proof. intros. text_auto. Qed.
+#[local] Hint Resolve text_own_handlers text_fcn_handlers : core.
+
+(* tickit_window_set_geometry *)
+Lemma step_setgeom : forall f, S_all f -> forall w F h, good F h -> findw h w <> None ->
+  dok F (set_geometry fixed (S f) w h).
+Proof.
+  intros f SA w F h G Hl. rewrite set_geometry_F. cbn [v_events_asis fixed].
+  destruct (live_some h w Hl) as [c Hc]. unfold bind at 1. rewrite (getw_run h w c Hc).
+  change (log_op (OFrameRef w) ;;; window_ref w) with (frame_run f (OFrameRef w)).
+  change (log_op (OFrameUnref w) ;;; unref fixed f w) with (frame_run f (OFrameUnref w)).
+  apply dok_held; [exact G|exact Hl| |].
+  - apply text_bind; [apply text_frame_run|]. intros _. apply text_bind; [auto|]. intros _. apply text_frame_run.
+  - intros F' h1 G1 Hpf. apply dok_framed; [exact G1|exact Hpf|auto|].
+    intros h2 G2. apply (dok_own_handlers f SA); [exact G2|left; reflexivity].
+Qed.
+
+(* on_term_resize *)
+Lemma step_resize : forall f, S_all f -> forall F h, good F h -> findw h root <> None ->
+  dok F (on_term_resize fixed (S f) h).
+Proof.
+  intros f SA F h G Hl. pose proof SA as (_ & _ & _ & _ & _ & _ & _ & _ & _ & _ & S11 & _).
+  rewrite on_term_resize_F. cbv zeta. cbn [v_events_asis fixed].
+  change (log_op (OFrameRef 1%positive) ;;; window_ref 1%positive) with (frame_run f (OFrameRef root)).
+  change (log_op (OFrameUnref 1%positive) ;;; unref fixed f 1%positive) with (frame_run f (OFrameUnref root)).
+  change 1%positive with root.
+  destruct (live_some h root Hl) as [c Hc]. unfold bind at 1. rewrite (getw_run h root c Hc).
+  apply dok_framed; [exact G|apply good_root_framed; assumption| |].
+  - apply text_bind; [auto|]. intros _. apply ktr_text. auto with ktr.
+  - intros h1 G1. assert (Hin : In O (idx root :: F)) by (left; reflexivity).
+    eapply (dok_bind (idx root :: F) (idx root :: F)).
+    + apply S11; [exact G1|]. destruct (good_root_cell _ h1 G1 Hin) as (c1 & Hc1 & _). congruence.
+    + intros _. apply ktr_text. auto with ktr.
+    + intros _ h2 _ G2. destruct (good_root_cell _ h2 G2 Hin) as (c2 & Hc2 & _).
+      assert (Hl2 : findw h2 root <> None) by congruence.
+      pose proof (run_rx_only _ _ (expose f root) h2 G2 (ktr_expose f root)
+                    (expose_spec [] f root h2 h2 (conj eq_refl (conj (good_hinv _ _ G2) Hl2)))) as H.
+      unfold dok. destruct (expose f root h2); auto; contradiction.
+Qed.
+
+(* _do_expose *)
+Lemma step_doexpose : forall f, S_all f -> forall w F h, good F h -> parent_framed F h w ->
+  dok F (do_expose fixed (S f) w h).
+Proof.
+  intros f SA w F h G Hpf. pose proof SA as (_ & _ & _ & _ & _ & _ & _ & _ & _ & _ & _ & _ & _ & S14 & _).
+  rewrite do_expose_F. cbn [v_events_asis fixed].
+  change (log_op (OFrameRef w) ;;; window_ref w) with (frame_run f (OFrameRef w)).
+  change (log_op (OFrameUnref w) ;;; unref fixed f w) with (frame_run f (OFrameUnref w)).
+  apply dok_framed; [exact G|exact Hpf| |].
+  - apply text_bind; [|intros _; auto]. apply text_bind; [apply ktr_text; auto with ktr|]. intro kids. auto.
+  - intros h1 G1. assert (Hin : In (idx w) (idx w :: F)) by (left; reflexivity).
+    eapply (dok_bind (idx w :: F) (idx w :: F)).
+    + destruct (framed_cell _ h1 w G1 Hin) as [c1 Hw1]. unfold bind at 1.
+      pose proof (copy_children_spec f h1 w c1 (good_hinv _ _ G1) Hw1) as Hcc.
+      destruct (copy_children f w h1) as [kids h2| |]; [|contradiction|exact I]. destruct Hcc as [-> _].
+      apply S14; assumption.
+    + intros _. auto.
+    + intros _ h2 _ G2. apply (dok_own_handlers f SA); assumption.
+Qed.
+
+Lemma step_exkids : forall f, S_all f -> forall w kids F h, good F h -> In (idx w) F ->
+  dok F (expose_kids fixed (S f) w kids h).
+Proof.
+  intros f SA w kids F h G Hin. pose proof SA as (_ & _ & _ & _ & _ & _ & _ & _ & _ & _ & _ & _ & S13 & S14 & _).
+  rewrite expose_kids_F. destruct kids as [|k kids']; [apply dok_ret; exact G|].
+  destruct (framed_cell F h w G Hin) as [cw Hw].
+  unfold bind at 1. pose proof (is_child_spec f h w cw k (good_hinv _ _ G) Hw) as Hic.
+  destruct (is_child f w k h) as [still h1| |]; [|contradiction|exact I]. destruct Hic as [-> Hst].
+  destruct still; cbn [negb]; [|apply S14; assumption].
+  destruct (Hst eq_refl) as (ck & Hk & Hpk).
+  unfold bind at 1. rewrite (getw_run h k ck Hk).
+  destruct (negb (w_visible ck)); [apply S14; assumption|].
+  eapply dok_bind; [apply S13; [exact G|eapply child_parent_framed; eauto]| |].
+  - intros _. apply text_bind; [apply ktr_text; auto with ktr|]. intros _. auto.
+  - intros _ h1 _ G1. destruct (framed_cell F h1 w G1 Hin) as [cw1 Hw1].
+    unfold bind at 1. pose proof (is_child_spec f h1 w cw1 k (good_hinv _ _ G1) Hw1) as Hic.
+    destruct (is_child f w k h1) as [still h2| |]; [|contradiction|exact I]. destruct Hic as [-> _].
+    apply S14; assumption.
+Qed.
+
+(* clearing / setting the focused flag of a framed window *)
+Lemma good_set_focused : forall F h w c b, good F h -> findw h w = Some c ->
+  good F (upd_cell h w (fun c0 => set_focused c0 b)).
+Proof.
+  intros F h w c b G Hw. assert (FO : flags_only h (upd_cell h w (fun c0 => set_focused c0 b))).
+  { apply flags_only_upd. intro c0. split; [repeat split|reflexivity]. }
+  apply (good_stable F h _ G); [eapply flags_only_hinv; [apply (good_hinv _ _ G)|exact FO]|apply flags_only_stable; exact FO|].
+  unfold upd_cell. rewrite Hw. reflexivity.
+Qed.
+Lemma setw_focused_eq : forall h w c b, findw h w = Some c ->
+  upd_cell h w (fun _ => set_focused c b) = upd_cell h w (fun c0 => set_focused c0 b).
+Proof. intros h w c b Hw. unfold upd_cell. rewrite Hw. reflexivity. Qed.
+
+(* if(win->is_focused) { win->is_focused = false; run_events(FOCUS) } *)
+Lemma dok_unfocus : forall f, S_all f -> forall w F h, good F h -> In (idx w) F ->
+  dok F ((c2 <- getw w ;;
+          if w_focused c2 then setw w (set_focused c2 false) ;;; (c3 <- getw w ;; run_ev_handlers fixed f w (w_hs c3) HFocus) else ret tt) h).
+Proof.
+  intros f SA w F h G Hin. destruct (framed_cell F h w G Hin) as [c2 Hw2].
+  unfold bind at 1. rewrite (getw_run h w c2 Hw2). destruct (w_focused c2); [|apply dok_ret; exact G].
+  unfold bind at 1. rewrite (setw_run h w c2 _ Hw2). rewrite (setw_focused_eq h w c2 false Hw2).
+  apply (dok_own_handlers f SA); [eapply good_set_focused; eauto|exact Hin].
+Qed.
+Lemma text_unfocus : forall f w,
+  text (c2 <- getw w ;;
+        if w_focused c2 then setw w (set_focused c2 false) ;;; (c3 <- getw w ;; run_ev_handlers fixed f w (w_hs c3) HFocus) else ret tt).
+Proof. intros. text_auto. Qed.
+#[local] Hint Resolve text_unfocus : core.
+
+(* _focus_lost *)
+Lemma step_flost : forall f, S_all f -> forall w F h, good F h -> parent_framed F h w ->
+  dok F (focus_lost fixed (S f) w h).
+Proof.
+  intros f SA w F h G Hpf. pose proof SA as (_ & _ & _ & _ & _ & _ & _ & _ & _ & _ & _ & _ & _ & _ & S15 & _).
+  rewrite focus_lost_F. cbn [v_events_asis fixed].
+  change (log_op (OFrameRef w) ;;; window_ref w) with (frame_run f (OFrameRef w)).
+  change (log_op (OFrameUnref w) ;;; unref fixed f w) with (frame_run f (OFrameUnref w)).
+  apply dok_framed; [exact G|exact Hpf| |].
+  - apply text_bind; [|intros _; auto]. text_auto.
+  - intros h1 G1. assert (Hin : In (idx w) (idx w :: F)) by (left; reflexivity).
+    eapply (dok_bind (idx w :: F) (idx w :: F)); [|intros _; auto|intros _ h2 _ G2; apply (dok_unfocus f SA); assumption].
+    destruct (framed_cell _ h1 w G1 Hin) as [c Hw]. unfold bind at 1. rewrite (getw_run h1 w c Hw).
+    destruct (w_focus c) as [fc|] eqn:Hfo; [|apply dok_ret; exact G1].
+    destruct (hi_focus [] h1 (good_hinv _ _ G1) w c fc Hw (fun y => y) Hfo) as (cf & Hcf & Hpc).
+    eapply dok_bind; [apply S15; [exact G1|eapply child_parent_framed; eauto]|intros _; auto|].
+    intros _ h2 _ G2. apply (dok_fcn_handlers f SA); assumption.
+Qed.
+
+Lemma ptr_eqb_some : forall a b, ptr_eqb a (Some b) = true -> a = Some b.
+Proof. intros [x|] b H; cbn in H; [apply Pos.eqb_eq in H; congruence|discriminate]. Qed.
+
+(* _focus_gained *)
+Lemma step_fgained : forall f, S_all f -> forall w child F h, good F h -> parent_framed F h w ->
+  (forall ch, child = Some ch -> In (idx ch) F) -> dok F (focus_gained fixed (S f) w child h).
+Proof.
+  intros f SA w child F h G Hpf Hch.
+  pose proof SA as (_ & _ & _ & _ & _ & _ & _ & _ & _ & _ & _ & _ & _ & _ & S15 & S16 & _).
+  rewrite focus_gained_F. cbn [v_events_asis fixed].
+  change (log_op (OFrameRef w) ;;; window_ref w) with (frame_run f (OFrameRef w)).
+  change (log_op (OFrameUnref w) ;;; unref fixed f w) with (frame_run f (OFrameUnref w)).
+  apply dok_framed; [exact G|exact Hpf| |].
+  - text_auto.
+  - intros h1 G1. set (F' := idx w :: F) in *. assert (Hin : In (idx w) F') by (left; reflexivity).
+    assert (Hch' : forall ch, child = Some ch -> In (idx ch) F') by (intros ch E; right; apply Hch; exact E).
+    (* whoever held the focus below loses it *)
+    eapply (dok_bind F' F').
+    { destruct (framed_cell _ h1 w G1 Hin) as [c Hw]. unfold bind at 1. rewrite (getw_run h1 w c Hw).
+      destruct (w_focus c) as [fc|] eqn:Hfo; [|apply dok_ret; exact G1].
+      destruct (negb (ptr_eqb (Some fc) child)); [|apply dok_ret; exact G1].
+      destruct (hi_focus [] h1 (good_hinv _ _ G1) w c fc Hw (fun y => y) Hfo) as (cf & Hcf & Hpc).
+      eapply dok_bind; [apply S15; [exact G1|eapply child_parent_framed; eauto]|intros _; auto|].
+      intros _ h2 _ G2. apply (dok_fcn_handlers f SA); assumption. }
+    { intros _. text_auto. }
+    intros _ h2 _ G2.
+    (* the window itself no longer holds it when it moves on to a descendant *)
+    eapply (dok_bind F' F').
+    { destruct child; [apply (dok_unfocus f SA); assumption|apply dok_ret; exact G2]. }
+    { intros _. text_auto. }
+    intros _ h3 _ G3.
+    (* upwards, or the restore request *)
+    eapply (dok_bind F' F').
+    { destruct (framed_cell _ h3 w G3 Hin) as [c1 Hw1]. unfold bind at 1. rewrite (getw_run h3 w c1 Hw1).
+      destruct (w_parent c1) as [p|] eqn:Hp.
+      - destruct (w_visible c1); [|apply dok_ret; exact G3].
+        apply S16; [exact G3|eapply framed_parent_framed; eauto|].
+        intros ch E. inversion E; subst ch. exact Hin.
+      - assert (Hl3 : forall a, Some w = Some a -> findw h3 a <> None) by (intros a E; inversion E; subst a; congruence).
+        pose proof (run_rx_only _ _ (focus_chain_changed f (Some w)) h3 G3 (ktr_focus_chain_changed f (Some w))
+                      (focus_chain_changed_spec [] f (Some w) h3 h3 (conj eq_refl (conj (good_hinv _ _ G3) Hl3)))) as H.
+        unfold dok. destruct (focus_chain_changed f (Some w) h3); auto; contradiction. }
+    { intros _. text_auto. }
+    intros _ h4 _ G4.
+    (* the focused flag, the handlers *)
+    eapply (dok_bind F' F').
+    { destruct child as [ch|].
+      - apply (dok_fcn_handlers f SA); assumption.
+      - destruct (framed_cell _ h4 w G4 Hin) as [c4 Hw4]. unfold bind at 1. rewrite (upd_run h4 w _ c4 Hw4).
+        apply (dok_own_handlers f SA); [eapply good_set_focused; eauto|exact Hin]. }
+    { intros _. text_auto. }
+    intros _ h5 _ G5.
+    (* the link to the child, if it still is one *)
+    destruct (framed_cell _ h5 w G5 Hin) as [c5 Hw5].
+    assert (Hset : forall fo, (forall x, fo = Some x -> exists cx, findw h5 x = Some cx /\ w_parent cx = Some w) ->
+              dok F' (upd w (fun c => set_focus c fo) h5)).
+    { intros fo Hfo. rewrite (upd_run h5 w _ c5 Hw5).
+      destruct (hinv_set_focus [] h5 w c5 fo (good_hinv _ _ G5) Hw5 Hfo) as [HI6 S6].
+      right. apply (good_stable F' h5 _ G5 HI6 S6). unfold upd_cell. rewrite Hw5. reflexivity. }
+    destruct child as [ch|]; [|apply Hset; intros x E; discriminate].
+    destruct (framed_cell _ h5 ch G5 (Hch' ch eq_refl)) as [cch Hcch].
+    unfold bind at 1. rewrite (getw_run h5 ch cch Hcch). apply Hset.
+    intros x E. destruct (ptr_eqb (w_parent cch) (Some w)) eqn:Epq; [|discriminate].
+    inversion E; subst x. exists cch. split; [exact Hcch|apply ptr_eqb_some; exact Epq].
+Qed.
+
+(* tickit_window_flush *)
+Lemma step_flush : forall f, S_all f -> forall F h, good F h -> findw h root <> None ->
+  dok F (window_flush fixed (S f) root h).
+Proof.
+  intros f SA F h G Hl. pose proof SA as (_ & _ & _ & _ & _ & _ & _ & _ & _ & _ & _ & _ & S13 & _).
+  rewrite window_flush_F. cbn [v_events_asis fixed].
+  change (log_op (OFrameRef root) ;;; window_ref root) with (frame_run f (OFrameRef root)).
+  change (log_op (OFrameUnref root) ;;; unref fixed f root) with (frame_run f (OFrameUnref root)).
+  unfold bind at 1.
+  pose proof (run_stable F _ (flush_begin f root) h G (ktr_flush_begin f root)
+                (flush_begin_spec f h (good_hinv _ _ G) Hl h eq_refl)) as Hb.
+  pose proof (flush_begin_spec f h (good_hinv _ _ G) Hl h eq_refl) as Hb2.
+  destruct (flush_begin f root h) as [go h1| |]; [|contradiction|exact I].
+  destruct go; [|apply dok_ret; exact Hb].
+  assert (Hl1 : findw h1 root <> None) by (destruct Hb2 as [_ S1]; apply (stable_live h h1 root S1); exact Hl).
+  apply dok_framed; [exact Hb|apply good_root_framed; assumption| |].
+  - apply text_bind; [|intros _; apply ktr_text; auto with ktr]. apply text_bind; [apply ktr_text; auto with ktr|]. intro r2.
+    destruct (r_expose r2); [|apply text_ret]. apply text_bind; [apply ktr_text; auto with ktr|]. intros _.
+    apply text_bind; [auto|]. intros _. apply ktr_text. auto with ktr.
+  - intros h2 G2. assert (Hin : In O (idx root :: F)) by (left; reflexivity). set (F' := idx root :: F) in *.
+    eapply (dok_bind F' F').
+    + destruct (good_root_cell F' h2 G2 Hin) as (c2 & Hc2 & Hr2).
+      unfold bind at 1. rewrite (getr_run h2 root c2 Hc2 Hr2).
+      destruct (r_expose (rx h2)); [|apply dok_ret; exact G2].
+      unfold bind at 1. rewrite (setr_run h2 root c2 _ Hc2 Hr2).
+      assert (G3 : good F' (with_rx h2 (set_rexpose (rx h2) false))) by (apply good_rx; [exact G2|reflexivity|reflexivity]).
+      eapply (dok_bind F' F').
+      * apply S13; [exact G3|]. apply good_root_framed; [exact G3|]. change (findw h2 root <> None). congruence.
+      * intros _. apply ktr_text. auto with ktr.
+      * intros _ h4 _ G4. destruct (good_root_cell F' h4 G4 Hin) as (c4 & Hc4 & Hr4).
+        rewrite (updr_run h4 root c4 _ Hc4 Hr4). right. apply good_rx; [exact G4|reflexivity|reflexivity].
+    + intros _. apply ktr_text. auto with ktr.
+    + intros _ h3 _ G3. destruct (good_root_cell F' h3 G3 Hin) as (c3 & Hc3 & _).
+      assert (Hl3 : findw h3 root <> None) by congruence.
+      pose proof (run_stable F' _ (flush_end f root) h3 G3 (ktr_flush_end f root)
+                    (flush_end_spec f h3 (good_hinv _ _ G3) Hl3 h3 eq_refl)) as He.
+      unfold dok. destruct (flush_end f root h3); auto; contradiction.
+Qed.
+
+(* a client call that dispatches: it is logged; the discipline accepts it or the trace is no longer a client's *)
+Lemma logged_call : forall F h o (c : eghost -> bool), good F h ->
+  (forall g, estep g o = if c g then Some g else None) ->
+  let h1 := mkHeap (wins h) (reqs h) (rx h) (nextw h) (nextq h) (dlog h) (uninit_seen h) (o :: tr h) in
+  ill h1 \/ (good F h1 /\ exists g, agreeE g h /\ c g = true).
+Proof.
+  intros F h o c (g & Hg & HI & AG & Hfr & HF) Hs h1.
+  destruct (c g) eqn:Ec.
+  - right. split; [|exists g; auto]. exists g.
+    split; [rewrite (echeck_logged h h1 o g Hg eq_refl), Hs, Ec; reflexivity|]. split; [apply hinv_log; exact HI|].
+    split; [|split; assumption]. destruct AG as [L C]. constructor; [exact L|exact C].
+  - left. unfold ill. rewrite (echeck_logged h h1 o g Hg eq_refl), Hs, Ec. reflexivity.
+Qed.
+
+Lemma usable_live : forall F h g w, good F h -> agreeE g h -> eusable g (idx w) = true -> anc h w root.
+Proof.
+  intros F h g w G AG Hu. pose proof (agreeE_usable g h AG (idx w) Hu) as Ha. rewrite addr_idx in Ha. exact Ha.
+Qed.
+
+Lemma step_run_op : forall f, S_all f -> forall o F h, good F h -> dok F (run_op fixed (S f) o h).
+Proof.
+  intros f SA o F h G.
+  destruct (event_free_op o) eqn:Hef.
+  { pose proof (good_client (S f) o F h G Hef) as H. unfold dok. destruct (run_op fixed (S f) o h); auto. }
+  pose proof SA as (_ & _ & _ & _ & S5 & _ & _ & _ & S9 & _ & S11 & S12 & _ & _ & _ & S16 & S17).
+  rewrite run_op_F. cbn [v_events_asis fixed]. destruct o; cbn in Hef; try discriminate.
+  - (* OFocus: tickit_window_take_focus *)
+    unfold bind at 1. cbn [log_op].
+    destruct (logged_call F h (OFocus w) (fun g => eusable g (idx w)) G (fun g => eq_refl)) as [Hi|[G1 (g & AG & Hu)]];
+      [apply dok_ill; [text_auto|exact Hi]|].
+    set (h1 := mkHeap (wins h) (reqs h) (rx h) (nextw h) (nextq h) (dlog h) (uninit_seen h) (OFocus w :: tr h)) in *.
+    assert (Hl : findw h1 w <> None) by (change (findw h w <> None); eapply anc_live_l; eapply usable_live; eauto).
+    apply dok_held; [exact G1|exact Hl|auto|].
+    intros F' h2 G2 Hpf. apply S16; [exact G2|exact Hpf|]. intros ch E. discriminate.
+  - (* OFlush *)
+    unfold bind at 1. cbn [log_op].
+    destruct (logged_call F h (OFlush w) (fun g => Nat.eqb (idx w) 0 && eusable g 0) G (fun g => eq_refl)) as [Hi|[G1 (g & AG & Hu)]];
+      [apply dok_ill; [auto|exact Hi]|].
+    set (h1 := mkHeap (wins h) (reqs h) (rx h) (nextw h) (nextq h) (dlog h) (uninit_seen h) (OFlush w :: tr h)) in *.
+    apply andb_prop in Hu. destruct Hu as [E0 Hu]. apply Nat.eqb_eq in E0.
+    assert (Ew : w = root) by (rewrite <- (addr_idx w), E0; reflexivity). subst w.
+    apply S17; [exact G1|]. change (findw h root <> None). eapply anc_live_l. eapply (usable_live F h g root); eauto.
+  - (* OKey *)
+    unfold bind at 1. cbn [log_op].
+    set (h1 := mkHeap (wins h) (reqs h) (rx h) (nextw h) (nextq h) (dlog h) (uninit_seen h) (OKey :: tr h)).
+    assert (G1 : good F h1) by (apply good_logged; [exact G|reflexivity]).
+    unfold bind at 1. unfold root_bound at 1. destruct (PM.mem 1%positive (wins h1)) eqn:Em; [|apply dok_ret; exact G1].
+    assert (Hl : findw h1 root <> None).
+    { unfold findw. apply PM.mem_2 in Em. destruct Em as [c Hc]. apply PM.find_1 in Hc. unfold root. congruence. }
+    eapply dok_bind; [apply S5; [exact G1|apply good_root_framed; assumption]|intro; apply text_ret|].
+    intros _ h2 _ G2. apply dok_ret. exact G2.
+  - (* OMouse *)
+    unfold bind at 1. cbn [log_op].
+    set (h1 := mkHeap (wins h) (reqs h) (rx h) (nextw h) (nextq h) (dlog h) (uninit_seen h) (OMouse t :: tr h)).
+    assert (G1 : good F h1) by (apply good_logged; [exact G|intro g; reflexivity]).
+    unfold bind at 1. unfold root_bound at 1. destruct (PM.mem 1%positive (wins h1)) eqn:Em; [|apply dok_ret; exact G1].
+    assert (Hl : findw h1 root <> None).
+    { unfold findw. apply PM.mem_2 in Em. destruct Em as [c Hc]. apply PM.find_1 in Hc. unfold root. congruence. }
+    apply S9; assumption.
+  - (* OGeom: tickit_window_set_geometry *)
+    unfold bind at 1. cbn [log_op].
+    destruct (logged_call F h (OGeom w) (fun g => eusable g (idx w)) G (fun g => eq_refl)) as [Hi|[G1 (g & AG & Hu)]];
+      [apply dok_ill; [auto|exact Hi]|].
+    apply S11; [exact G1|]. change (findw h w <> None). eapply anc_live_l. eapply usable_live; eauto.
+  - (* OMove: tickit_window_reposition *)
+    unfold bind at 1. cbn [log_op].
+    change (log_op (OFrameRef w) ;;; window_ref w) with (frame_run f (OFrameRef w)).
+    change (log_op (OFrameUnref w) ;;; unref fixed f w) with (frame_run f (OFrameUnref w)).
+    destruct (logged_call F h (OMove w) (fun g => eusable g (idx w)) G (fun g => eq_refl)) as [Hi|[G1 (g & AG & Hu)]];
+      [apply dok_ill; [text_auto; apply text_frame_run|exact Hi]|].
+    set (h1 := mkHeap (wins h) (reqs h) (rx h) (nextw h) (nextq h) (dlog h) (uninit_seen h) (OMove w :: tr h)) in *.
+    assert (Hl : findw h1 w <> None) by (change (findw h w <> None); eapply anc_live_l; eapply usable_live; eauto).
+    destruct (live_some h1 w Hl) as [c Hc]. unfold bind at 1. rewrite (getw_run h1 w c Hc).
+    apply dok_held; [exact G1|exact Hl| |].
+    + apply text_bind; [apply text_frame_run|]. intros _. apply text_bind; [|intros _; apply text_frame_run].
+      apply text_bind; [auto|]. intros _. text_auto.
+    + intros F' h2 G2 Hpf. apply dok_framed; [exact G2|exact Hpf| |].
+      * apply text_bind; [auto|]. intros _. text_auto.
+      * intros h3 G3. assert (Hin : In (idx w) (idx w :: F')) by (left; reflexivity).
+        eapply dok_bind.
+        -- apply S11; [exact G3|]. destruct (framed_cell _ h3 w G3 Hin) as [c3 Hc3]. congruence.
+        -- intros _. text_auto.
+        -- intros _ h4 _ G4. destruct (framed_cell _ h4 w G4 Hin) as [c4 Hc4].
+           unfold bind at 1. rewrite (getw_run h4 w c4 Hc4). destruct (w_focused c4); [|apply dok_ret; exact G4].
+           assert (Hl4 : forall a, Some w = Some a -> findw h4 a <> None) by (intros a E; inversion E; subst a; congruence).
+           pose proof (run_rx_only _ _ (focus_chain_changed f (Some w)) h4 G4 (ktr_focus_chain_changed f (Some w))
+                         (focus_chain_changed_spec [] f (Some w) h4 h4 (conj eq_refl (conj (good_hinv _ _ G4) Hl4)))) as H.
+           unfold dok. destruct (focus_chain_changed f (Some w) h4); auto; contradiction.
+  - (* OResize: the terminal's resize event, then the harness's expose *)
+    unfold bind at 1. cbn [log_op].
+    set (h1 := mkHeap (wins h) (reqs h) (rx h) (nextw h) (nextq h) (dlog h) (uninit_seen h) (OResize :: tr h)).
+    assert (G1 : good F h1) by (apply good_logged; [exact G|reflexivity]).
+    assert (Hrest : forall h2, good F h2 -> dok F ((b2 <- root_bound ;; if b2 then expose f 1%positive else ret tt) h2)).
+    { intros h2 G2. unfold bind at 1. unfold root_bound at 1.
+      destruct (PM.mem 1%positive (wins h2)) eqn:Em; [|apply dok_ret; exact G2].
+      assert (Hl : findw h2 root <> None).
+      { unfold findw. apply PM.mem_2 in Em. destruct Em as [c Hc]. apply PM.find_1 in Hc. unfold root. congruence. }
+      change 1%positive with root.
+      pose proof (run_rx_only _ _ (expose f root) h2 G2 (ktr_expose f root)
+                    (expose_spec [] f root h2 h2 (conj eq_refl (conj (good_hinv _ _ G2) Hl)))) as H.
+      unfold dok. destruct (expose f root h2); auto; contradiction. }
+    unfold bind at 1. unfold root_bound at 1. destruct (PM.mem 1%positive (wins h1)) eqn:Em.
+    + assert (Hl : findw h1 root <> None).
+      { unfold findw. apply PM.mem_2 in Em. destruct Em as [c Hc]. apply PM.find_1 in Hc. unfold root. congruence. }
+      eapply (dok_bind F F); [apply S12; assumption|intros _; text_auto|]. intros _ h2 _ G2. apply Hrest. exact G2.
+    + unfold bind at 1. cbn [ret]. apply Hrest. exact G1.
+  - cbn. right. exact G.
+  - cbn. right. exact G.
+Qed.
+
 Theorem S_all_holds : forall f, S_all f.
 Proof.
   induction f as [|f IH].
@@ -1198,7 +1672,15 @@ Proof.
     split; [intros; apply step_kkids; assumption|].
     split; [intros; apply step_hmouse; assumption|].
     split; [intros; apply step_mkids; assumption|].
-    intros; apply step_otm; assumption.
+    split; [intros; apply step_otm; assumption|].
+    split; [intros; apply step_evh; assumption|].
+    split; [intros; apply step_setgeom; assumption|].
+    split; [intros; apply step_resize; assumption|].
+    split; [intros; apply step_doexpose; assumption|].
+    split; [intros; apply step_exkids; assumption|].
+    split; [intros; apply step_flost; assumption|].
+    split; [intros; apply step_fgained; assumption|].
+    intros; apply step_flush; assumption.
 Qed.
 
 Lemma good_heap0 : good [] (heap0 fixed).
@@ -1261,8 +1743,8 @@ Qed.
    the discipline accepts its trace, 3+3 frame references were taken for the first event, and nothing stays allocated. *)
 Definition ev_demo : list op :=
   [ONew 1 false false false false; ONew 2 false false false false; OFocus 3;
-   OBind 3 0 true 0 false [OUnref 3; OUnref 2; ORef 1; OMouse MPress; OUnref 1];
-   OBind 1 1 false 1 false [OShow 1; OExpose 1];
+   OBind 3 0 HKey 0 false [OUnref 3; OUnref 2; ORef 1; OMouse MPress; OUnref 1];
+   OBind 1 1 HMouse 1 false [OShow 1; OExpose 1];
    OKey; OMouse MPress; OMouse MRelease; OFlush 1; OUnref 1].
 Lemma events_nonvacuous : exists h,
   run_script fixed 80 ev_demo = VOk h /\ wf_trace (tr h) = true /\ heap_empty h = true /\
@@ -1274,9 +1756,26 @@ Proof. vm_compute. eexists. split; [reflexivity|]. split; [reflexivity|]. split;
    to its parent (the history on which the library faulted before fixes/C08-6) *)
 Definition drag_demo : list op :=
   [ONew 1 false false false false; ONew 2 false false false false;
-   OBind 3 0 false 16 true []; OBind 3 1 false 128 false [OUnref 3; OUnref 2]; OBind 3 2 false 32 false [OShow 3];
+   OBind 3 0 HMouse 16 true []; OBind 3 1 HMouse 128 false [OUnref 3; OUnref 2]; OBind 3 2 HMouse 32 false [OShow 3];
    OMouse MPress; OMouse MDrag; OMouse MDrag; OMouse MRelease; OFlush 1; OUnref 1].
 Lemma drag_nonvacuous : exists h,
   run_script fixed 80 drag_demo = VOk h /\ wf_trace (tr h) = true /\ heap_empty h = true /\
   (10 <= length (filter (fun o => match o with OFrameRef _ => true | _ => false end) (tr h)))%nat.
+Proof. vm_compute. eexists. split; [reflexivity|]. split; [reflexivity|]. split; [reflexivity|]. lia. Qed.
+
+(* ... and the other event kinds: take_focus on the leaf of a three-level chain with focus_child_notify on the root; the
+   leaf's FOCUS handler drops the last client references to its own window and to its parent (both are held until
+   take_focus lets go); the root's FOCUS handler (told about the child) repositions the root; an EXPOSE handler of the root
+   unbinds itself, exposes and flushes from inside the flush; a GEOMCHANGE handler of the root runs for set_geometry, for
+   reposition and for the terminal's resize *)
+Definition efg_demo : list op :=
+  [ONew 1 false false false false; ONew 2 false false false false; ONotify 1 true;
+   OBind 3 0 HFocus 0 false [OUnref 3; OUnref 2];
+   OBind 1 1 HFocus 0 false [OMove 1];
+   OBind 1 2 HExpose 0 false [OUnbind 1 2; OExpose 1; OFlush 1];
+   OBind 1 3 HGeom 0 false [OShow 1];
+   OFocus 3; OExpose 1; OFlush 1; OGeom 1; OResize; OFlush 1; OTouch 1 None true; OFlush 1; OUnref 1].
+Lemma efg_nonvacuous : exists h,
+  run_script fixed 80 efg_demo = VOk h /\ wf_trace (tr h) = true /\ heap_empty h = true /\
+  (12 <= length (filter (fun o => match o with OFrameRef _ => true | _ => false end) (tr h)))%nat.
 Proof. vm_compute. eexists. split; [reflexivity|]. split; [reflexivity|]. split; [reflexivity|]. lia. Qed.
